@@ -17,6 +17,8 @@ mod eg14;
 mod egr;
 mod egq;
 mod eg3;
+mod eg5;
+mod eg4;
 
 fn main() {
     common::install_panic_hook();
@@ -42,6 +44,8 @@ fn main() {
         "egr" => egr::main(&a),
         "egq" => egq::main(&a),
         "eg3" => eg3::main(&a),
+        "eg5" => eg5::main(&a),
+        "eg4" => eg4::main(&a),
         "features" => {
             println!("checks={} explanations={}", cfg!(feature = "checks"), cfg!(feature = "explanations"));
         }
